@@ -446,21 +446,23 @@ package encoding
 // ---- byte-string blocks (bytes.go): the decoder never faults on arbitrary bytes ----
 // lengths come from an adaptive-width block, the payload from a (possibly compressed) block; every string handed back is
 // a window of the decoder's own buffer that lies inside it.
+// Values handed out by earlier Decode calls point into bbd.data[:len]: a later call may only write the spare capacity
+// behind them (or move to a fresh buffer), never the bytes already handed out.
 //@ func BytesBlockDecoder.Decode
-//@   property C11
+//@   property C11 C01
 //@   mode int
 //@   requires bbd != nil
-//@   modifies bbd.data
+//@   modifies hdr(bbd.data)
 //@   modifies bbd.data[len(bbd.data):cap(bbd.data)]
 //@   modifies dst[len(dst):cap(dst)]
 //@   ensures  count: result1 == nil && itemsCount < (1<<56) ==> len(result0) == len(dst) + int(itemsCount)
 //@   ensures  keeps: len(result0) >= len(dst)
 //@   loop 0 invariant len(data) >= 0 && len(dst) == old(len(dst)) + range_i && ((sameobj(dst, old(dst)) && off(dst) == off(old(dst)) && cap(dst) == cap(old(dst))) || fresh(dst))
 //@ func BytesBlockDecoder.DecodeWithTail
-//@   property C11
+//@   property C11 C01
 //@   mode int
 //@   requires bbd != nil
-//@   modifies bbd.data
+//@   modifies hdr(bbd.data)
 //@   modifies bbd.data[len(bbd.data):cap(bbd.data)]
 //@   modifies dst[len(dst):cap(dst)]
 //@   ensures  count: result2 == nil && itemsCount < (1<<56) ==> len(result0) == len(dst) + int(itemsCount)
